@@ -6,7 +6,7 @@
    later in the list, a timer may run long after it woke up (also after it was cancelled meanwhile).
    `Inv` (Proofs.v) holds in every reachable state (C10_invariant).  Examples.v (imported so that it is
    re-checked) replays the defects of the code before the fix on variant Legacy. *)
-From CF Require Import Common.Bytes C10.Model C10.Proofs C10.Proofs_b C10.Proofs_c C10.Proofs_e C10.Examples.
+From CF Require Import Common.Bytes C10.Model C10.Proofs C10.Proofs_b C10.Proofs_c C10.Proofs_e C10.Proofs_f C10.Lock C10.Examples.
 Open Scope Z_scope.
 
 (* Every reachable state: patterns are distinct keys; each pending pattern has a live (armed or
@@ -157,3 +157,62 @@ Theorem C10_request_sent_while_handling_packet_not_cancelled_by_it :
   nth_error (timers s') (length (timers s)) = Some (mkTimer rid (hdr_attr h :: d) pat tmo (now s + tmo) Armed sess).
 Proof. exact handler_request_survives. Qed.
 Print Assumptions C10_request_sent_while_handling_packet_not_cancelled_by_it.
+
+(* ---- a request superseded by a later request with the same pattern; ties ---- *)
+(* One timer per pattern: when a request is sent whose pattern is already pending, the NEW request becomes the pending
+   one (with an armed timer of its own timeout: C10_send_starts_retry_timer), the superseded request is not pending any
+   more and its timer is no longer armed; by C10_no_retry_after_answer it is never transmitted again (also when its timer
+   had already woken up: C10_stale_timer_fires_silently), and an answer matching the pattern stops the new request. *)
+Theorem C10_newest_request_supersedes : forall used s rid hdr data x exp tmo sess i t,
+  Inv s -> Uniq used s -> ~ In rid used ->
+  link s = Some sess -> nr s = true -> (length data <= 30)%nat ->
+  let pat := hdr_attr hdr :: x :: exp in
+  lookup pat (pats s) = Some i -> nth_error (timers s) i = Some t ->
+  let s' := fst (step Fixed s (Send rid hdr data (x :: exp) tmo)) in
+  pending s' rid /\ ~ pending s' (t_rid t) /\
+  nth_error (timers s') i = Some (cancel1 t) /\ t_status (cancel1 t) <> Armed.
+Proof. exact newest_request_supersedes. Qed.
+Print Assumptions C10_newest_request_supersedes.
+
+(* No ties: a pending pattern that is a prefix of header+data and as long as the chosen one IS the chosen one — an
+   arriving packet cancels exactly one timer, the one registered under the unique longest matching pattern. *)
+Theorem C10_longest_match_is_unique : forall s hdr data p i,
+  let d := hdr_attr hdr :: data in
+  let best := longest_match d (pats s) [] in
+  In (p, i) (pats s) -> (exists rest, d = p ++ rest) -> length p = length best -> best <> [] -> p = best.
+Proof. exact longest_match_is_unique. Qed.
+Print Assumptions C10_longest_match_is_unique.
+
+(* ---- the send lock with a blocking / failing driver (C10/Lock.v, variant WithFinally = code with fix F10b) ---- *)
+(* Every reachable state of the concurrent system (any interleaving of calls of send_packet by users and woken-up retry
+   timers, lock hand-overs, driver returns/exceptions, exceptions of packet_sent callbacks, and lock-free events): the lock
+   is held exactly by the one call that is inside the driver, and the model state is the plain model of Property.v run on
+   the serialisation of the calls in the order they got the lock — so every theorem above applies. *)
+Theorem C10_send_lock_invariant : forall evs, LInv (fst (lrun WithFinally linit evs)).
+Proof. intros evs. apply linv_run. exact linv_init. Qed.
+Print Assumptions C10_send_lock_invariant.
+
+(* Released on every path: however the driver call of the holder ends (return, driver exception, exception of a
+   packet_sent callback) the lock is free afterwards; a call that gets the lock and has nothing to transmit (no link,
+   resend of an answered/replaced/forgotten request: the early return) frees it in the same step. *)
+Theorem C10_send_lock_released_on_every_path : forall s i, LInv s -> holder s = Some i ->
+  forall o, holder (fst (lstep WithFinally s (LFinish i o))) = None.
+Proof. exact lock_released_on_every_path. Qed.
+Print Assumptions C10_send_lock_released_on_every_path.
+
+Theorem C10_send_lock_held_only_inside_driver : forall s i,
+  let s' := fst (lstep WithFinally s (LAcquire i)) in
+  holder s' = holder s \/ holder s' = None \/
+  (holder s' = Some i /\ exists a outs, nth_error (calls s') i = Some (a, Hold, outs) /\ has_tx outs = true).
+Proof. exact acquire_holds_only_while_in_driver. Qed.
+Print Assumptions C10_send_lock_held_only_inside_driver.
+
+(* No deadlock on the lock: free -> any waiting call can take it; held -> its holder is inside the driver and can finish. *)
+Theorem C10_send_lock_progress : forall s, LInv s ->
+  match holder s with
+  | None => forall i a po, nth_error (calls s) i = Some (a, Wait, po) ->
+            status_of (nth i (calls (fst (lstep WithFinally s (LAcquire i)))) (a, Wait, [])) <> Wait
+  | Some i => exists a outs, nth_error (calls s) i = Some (a, Hold, outs)
+  end.
+Proof. exact lock_progress. Qed.
+Print Assumptions C10_send_lock_progress.
